@@ -291,6 +291,7 @@ func c10Spaces(tier string) []pairLeg {
 		add("U3", noVoid(U(3)))
 		add("hostile", thin(HostileDocs(), 120))
 		add("deep", Deep(true))
+		add("mixed", Mixed())
 	} else {
 		add("A2x6", Arr(2, "6"))
 		add("A4x123", Arr(4, "123"))
@@ -300,6 +301,7 @@ func c10Spaces(tier string) []pairLeg {
 		add("U3", thin(noVoid(U(3)), 60))
 		add("hostile", thin(HostileDocs(), 40))
 		add("deep", Deep(false))
+		add("mixed", Mixed())
 	}
 	return legs
 }
